@@ -429,7 +429,7 @@ class Prover:
             return True
         return False
 
-    def _nwadd(self, facts, a, b, mx):
+    def _nwadd(self, facts, a, b, mx, _depth=0):
         ca, cb = const_int(a), const_int(b)
         ua, ub_ = self.ub(facts, a), self.ub(facts, b)
         if ua is not None and ub_ is not None and ua + ub_ <= mx:
@@ -453,13 +453,21 @@ class Prover:
                 ux = self.ub(facts, x)
                 if ux is not None and ux + cy <= mx:
                     return True
-            # y <= mx - x  (sub mx, x)   or  y <= K - x with K <= mx
+            # y <= M - x  where M is a constant <= mx, or any value with x <= M (then x + y <= M, no wrap)
             for (op, p, qv) in facts:
                 if op in ('ule', 'ult') and p == y:
                     qi = self._ins(qv)
                     if qi is not None and qi.op == 'sub' and _k(qi.o[1]) == x:
                         k = const_int(qi.o[0])
                         if k is not None and k <= mx:
+                            return True
+                        if k is None and self._cmp(facts, 'ule', x, _k(qi.o[0])):
+                            return True
+            # monotonicity: y <= e and x + e known not to wrap  =>  x + y does not wrap
+            if _depth < 2:
+                for (op, p, qv) in facts:
+                    if op in ('ule', 'ult') and p == y and qv != x and const_int(qv) is None:
+                        if self._nwadd(facts, x, qv, mx, _depth + 1):
                             return True
         # post-hoc idiom: s = a + b; fact s >= a (checked by the caller on the sum) is handled by the rule
         return False
